@@ -8,8 +8,8 @@ def run(ck, tier, seed):
     tmp = vlib.tmpdir("C10")
     exe = vlib.build_harness("san")
     q = tier == "quick"
-    cfg = fl.write_cfg("_c10_%d.cfg" % os.getpid(), Kinds='{"good", "compressed", "awami"}', Srcs='{"ops", "file"}',
-                       Texts="{0, 1, 2, 3, 4, 5, 6, 7}", ClientOps='{"face_query", "make_seg", "destroy_seg", "make_font"}', MaxOps=2 if q else 3)
+    cfg = fl.write_cfg("_c10_%d.cfg" % os.getpid(), Kinds='{"good", "compressed", "awami", "name1"}', Srcs='{"ops", "file", "opsnr"}',
+                       Texts="{0, 1, 2, 3, 4, 5, 6, 7}", ClientOps='{"face_query", "label", "make_seg", "destroy_seg", "make_font"}', MaxOps=2 if q else 3)
     ok, info = fl.run_histories(ck, tmp, "option-sweep", cfg, "FaceLifeTrace_c10.cfg", exe)
     if not ok:
         return
